@@ -169,8 +169,49 @@ fn multi(t: &[&str]) -> String {
     }
 }
 
+/// modify <work archive path> <ops ,> <names hex ,>
+/// ops: a.<namehex>.<datahex>.<comp 0|2|10|20>.<enc 0|1|2>.<replace 0|1> | r.<namehex> | m.<fromhex>.<tohex> | c | f
+/// output: per-op outcomes (OK | ERR-<kind>) ; after drop + reopen: reads and listing like readall
+fn modify(t: &[&str]) -> String {
+    use wow_mpq::compression::CompressionMethod;
+    use wow_mpq::{AddFileOptions, MutableArchive};
+    let mut outcomes = Vec::new();
+    {
+        let mut m = match MutableArchive::open(t[0]) { Ok(m) => m, Err(e) => return format!("MOPEN-{}", errclass(&e)) };
+        if t[1] != "-" {
+            for op in t[1].split(',') {
+                let p: Vec<&str> = op.split('.').collect();
+                let name = |h: &str| String::from_utf8(unhex(h)).unwrap();
+                let r = match p[0] {
+                    "a" => {
+                        let mut o = AddFileOptions::new().compression(match num(p[3]) { 0 => CompressionMethod::None, 2 => CompressionMethod::Zlib, 0x10 => CompressionMethod::BZip2, _ => CompressionMethod::Sparse })
+                            .replace_existing(p[5] == "1");
+                        if p[4] == "1" { o = o.encrypt(); }
+                        if p[4] == "2" { o = o.fix_key(); }
+                        m.add_file_data(&unhex(p[2]), &name(p[1]), o)
+                    }
+                    "r" => m.remove_file(&name(p[1])),
+                    "m" => m.rename_file(&name(p[1]), &name(p[2])),
+                    "c" => m.compact(),
+                    _ => m.flush(),
+                };
+                outcomes.push(match r { Ok(()) => "OK".to_string(), Err(e) => errclass(&e).replace(' ', "-") });
+            }
+        }
+    } // drop: implicit flush, file closed
+    let mut a = match Archive::open(t[0]) { Ok(a) => a, Err(e) => return format!("{} | REOPEN-{}", outcomes.join(","), errclass(&e).replace(' ', "-")) };
+    let reads: Vec<String> = t[2].split(',').map(|n| {
+        let nm = String::from_utf8(unhex(n)).unwrap();
+        let r = match a.read_file(&nm) { Ok(d) => format!("OK:{}", hex(&d)), Err(wow_mpq::Error::FileNotFound(_)) => "NOTFOUND".to_string(), Err(_) => "ERR".to_string() };
+        format!("{n}>{r}")
+    }).collect();
+    let lst = match a.list() { Ok(l) => { let mut v: Vec<String> = l.iter().map(|e| hex(e.name.as_bytes())).collect(); v.sort(); v.join(",") } Err(_) => "NOLIST".to_string() };
+    format!("{} | {} | {}", if outcomes.is_empty() { "-".to_string() } else { outcomes.join(",") }, reads.join(","), lst)
+}
+
 fn main() {
     serve(|t| match t[0] {
+        "modify" => modify(&t[1..]),
         // readall <archive> <names hex ,> -> name>OK:hex|NOTFOUND|ERR,... | sorted list name:size
         "readall" => {
             let mut a = match Archive::open(t[1]) { Ok(a) => a, Err(_) => return "OPEN-ERR".to_string() };
